@@ -34,7 +34,7 @@ ASSUMPTIONS = ["the reference channel is convert(dict) on canonical text; it is 
                "Excel date cells, formulas and rich text are outside the statement and not generated"]
 BUDGET = {"quick": 2800, "thorough": 60000}
 REQUIRED_LABELS = ["lone-sheet", "container:md", "container:csv", "container:xlsx", "container:xls", "container:xlsm",
-                   "delivery:path", "delivery:pathlike", "delivery:bytes", "delivery:bytesio", "delivery:file", "delivery:text",
+                   "delivery:path", "delivery:pathlike", "delivery:bytes", "delivery:bytesio", "delivery:bytesio-end", "delivery:file", "delivery:text",
                    "file_type:explicit", "file_type:implicit",
                    "noise:typed-int", "noise:typed-intfloat", "noise:typed-float", "noise:typed-bool", "noise:pad", "noise:nbsp",
                    "noise:trailing-rows", "noise:trailing-cols", "noise:blank-rows", "noise:blank-cols", "noise:blank-rows-60",
@@ -303,7 +303,7 @@ def grids_to_xls(grids, variant=0) -> bytes:
 # ----------------------------------------------------------------- evaluation
 
 EXT = {"md": ".md", "csv": ".csv", "xlsx": ".xlsx", "xlsm": ".xlsm", "xls": ".xls"}
-DELIVERIES = ["path", "pathlike", "bytes", "bytesio", "file", "text"]
+DELIVERIES = ["path", "pathlike", "bytes", "bytesio", "bytesio-end", "file", "text"]
 STEMS = ["data", "data", "my form", "form.v2", "Ünï-côdé_1", "x"]
 
 
@@ -337,6 +337,10 @@ def deliver(container, payload, how, explicit, stem, tmp, args):
             arg, used = payload, None
         elif how == "bytesio":
             arg, used = io.BytesIO(payload), None
+        elif how == "bytesio-end":
+            # a buffer as a writer leaves it (openpyxl's save(buf), buf.write(...)): positioned at its end
+            arg, used = io.BytesIO(), None
+            arg.write(payload)
         else:
             arg, used = payload.decode("utf-8"), None
         try:
